@@ -5,7 +5,9 @@ from vlib import qcode
 QUOTES = ["'", '"', "'''", '"""']
 NAMES = ["a", "b", "c", "ab", "s", "t", "x1", "_y", "long_name"]
 UNQ = ["1", "2.5", "x", "None", "Auto", "yes", "*a", "a+b", "#x", "x#y", "$a", "a=b", "e'm", 'x"y', "!", ".a", "-3", "a.b", "(1,2)", "\\x"]
-QTEXT = ["", "q", "\\", "#", ";", "a b", "it's", 'say "hi"', "back\\slash", "end\\", "li\nne", "\n", "two\n\nnl", "$v", "#", "{;}", "\\\n", "tab\there", "a\\'b"]
+QTEXT = ["", "q", "\\", "#", ";", "a b", "it's", 'say "hi"', "back\\slash", "end\\", "li\nne", "\n", "two\n\nnl", "$v", "#", "{;}", "\\\n", "tab\there", "a\\'b",
+         # inner lines that are blank-only or indented (text processing of the whole document must not touch the inside of quotes)
+         "+--+\n  \n+--+", "x\n y", "a\n\t\nb", "  lead\n  and\n  more", "cr\r\nlf"]
 # content of switched-off regions: anything whose lines do not START with "#phil" (a line-initial "#phil..." is
 # interpreted by scan_for_start; see findings F5a/F5b)
 JUNK = ["x = 1\n", "garbage { ; = \n", "'unclosed\n", " #phil __ON__\n", "}\n", '"""\n', "# comment\n", "\n", "a #phil __ON__\n",
@@ -70,6 +72,8 @@ LONG_HELPS = [
     "short-ish help", "", "x", "$var in help ${not} a variable", "semi;colon {brace} #hash = equals ! bang",
     # strings that read back as the None / Auto objects unless printed in quotes (repaired in /repo 9a822a9), and look-alikes
     "None", "Auto", "none", "AUTO", "nONE", "None ", "Nonex", "True", "123", "a.b", "_x1",
+    # identifier-like texts with a line break / blank at either end (must be printed in quotes)
+    "box\n", "None\n", "a.b\n", "\nbold", "x\ny", "bold\t", "\x0bv", "refine\r",
 ]
 RICH_DEF_ATTRS = [("type", t, "x") for t in [
     "int(value_min=0)", "int(value_min=-3, value_max=9, allow_none=False)", "int(allow_none=True)", "float(value_max=2.5)", "float",
